@@ -161,7 +161,7 @@ type vcIntCase struct {
 }
 
 // prop: C03 C04 C13
-// bound: every alignment 0..7 x 16 constraint tuples (the NGAP ones 0..255, 0..65535, 0..2^32-1, 0..2^40-1, 0..4095, 1..256, 0..63, -?; semi-constrained; unconstrained; extensible) x boundary and random values incl. out-of-range ones
+// bound: every alignment 0..7 x 23 constraint tuples (the NGAP ones 0..255, 0..65535, 0..131071, 0..262143, 0..1048575, 0..2^32-1, 0..2^40-1, 0..4e12 extensible, 0..4095, 1..256, 0..63, -?; 0..2^33-1, 0..2^24; semi-constrained; unconstrained; extensible) x boundary and random values incl. out-of-range ones
 func vcBounded_integer() {
 	rnd := vcSeed()
 	cases := []vcIntCase{
@@ -169,6 +169,8 @@ func vcBounded_integer() {
 		{true, true, 0, 4095, false}, {true, true, 1, 256, false}, {true, true, 0, 63, false}, {true, true, 1, 65536, false}, {true, true, 0, 16777215, false},
 		{true, true, -10, 10, false}, {true, true, 5, 5, false}, {true, true, 0, 7, true}, {true, true, 0, 255, true}, {true, true, 0, 4294967295, true},
 		{true, false, 0, 0, false}, {true, false, 1, 0, false}, {false, false, 0, 0, false},
+		// ranges whose size lies just above a power of 256: RepetitionPeriod, COUNT values, BitRate, and 2^32+1..2^33
+		{true, true, 0, 131071, false}, {true, true, 0, 262143, false}, {true, true, 0, 1048575, false}, {true, true, 0, 4000000000000, true}, {true, true, 0, 8589934591, false}, {true, true, 0, 16777216, false},
 	}
 	for off := 0; off < 8; off++ {
 		for _, c := range cases {
